@@ -2096,3 +2096,987 @@ func equalityIsNotInherited(c *core.Ctx) {
 	}
 	c.Stat("embedding_object_types", n)
 }
+
+// ---------------------------------------------------------------------------
+// positionsFromFragmentsDoNotOutliveTheFragment: the expressions inside a
+// template string are parsed on their own, so the positions of their nodes
+// count from the start of the fragment.  While such an expression is compiled
+// the compiler corrects them (templatePosition); when it is done, the
+// compiler's own note of where it is (position, used by the errors that are
+// not handed a node: a table that is full, a jump that is too far) is put back
+// to a place of the enclosing source.  Left at the fragment's last node, the
+// next such error names a line and a column that the source does not have.
+func positionsFromFragmentsDoNotOutliveTheFragment(c *core.Ctx) {
+	p := c.P
+	cp := p.Pkg("compiler")
+	ct := core.MustType(cp, "Compiler")
+	tIdx, pIdx := fieldIdxByName(ct, "templatePosition"), fieldIdxByName(ct, "position")
+	if tIdx < 0 || pIdx < 0 {
+		core.Undecidedf("compiler.Compiler has no templatePosition / position")
+	}
+	compile := p.SSAFunc(core.MustMethod(ct, "compile"))
+	n := 0
+	for _, fn := range repoFns(p, "compiler") {
+		if len(storesToField(fn, ct, tIdx)) == 0 {
+			continue
+		}
+		k := 0
+		for _, b := range fn.Blocks {
+			for _, in := range b.Instrs {
+				ci, ok := in.(ssa.CallInstruction)
+				if !ok || ci.Common().StaticCallee() != compile {
+					continue
+				}
+				// a compile that runs with the correction switched on
+				on := false
+				for _, st := range storesToField(fn, ct, tIdx) {
+					if kc, isK := st.Val.(*ssa.Const); isK && kc.IsNil() {
+						continue
+					}
+					if instrReaches(st, in) {
+						on = true
+					}
+				}
+				if !on {
+					continue
+				}
+				n++
+				k++
+				back := false
+				for _, st := range storesToField(fn, ct, pIdx) {
+					if instrReaches(in, st) && instrDominates(in, st) {
+						back = true
+					}
+				}
+				c.Check(back, core.SSAName(fn)+"|position-put-back-after-the-fragment|"+sprintf("%d", k), p.Pos(in.Pos()),
+					fn.Name()+" compiles an expression of a template string with the positions corrected"+ife(back, " and puts the compiler's position back afterwards", " and leaves the compiler's position at the last node of the fragment: an error that is reported at that position afterwards (the table of constants is full) names a line and a column counted from the start of the fragment"))
+			}
+		}
+	}
+	if n == 0 {
+		core.Undecidedf("no function compiles a template fragment under templatePosition")
+	}
+	c.Stat("fragment_compiles", n)
+}
+
+// ---------------------------------------------------------------------------
+// textCopiedAcrossLineEndsDropsTheCarriageReturn: a function of the lexer that
+// copies source text into a token as it stands, up to a closing delimiter and
+// across line ends (a raw string), leaves out the carriage return of a CRLF
+// line end.  Otherwise the same program saved with CRLF line endings has
+// another string constant in it than the one saved with LF.
+func textCopiedAcrossLineEndsDropsTheCarriageReturn(c *core.Ctx) {
+	p := c.P
+	lp := p.Pkg("lexer")
+	lexT := core.MustType(lp, "Lexer")
+	chIdx := fieldIdxByName(lexT, "characters")
+	if chIdx < 0 {
+		core.Undecidedf("lexer.Lexer has no characters")
+	}
+	n := 0
+	for _, fn := range repoFns(p, "lexer") {
+		if fn.Signature.Recv() == nil || fn.Parent() != nil {
+			continue
+		}
+		// returns a string made of a slice of the source
+		slices := false
+		for _, b := range fn.Blocks {
+			for _, in := range b.Instrs {
+				if sl, ok := in.(*ssa.Slice); ok {
+					if _, ok := loadOfField(sl.X, lexT, chIdx); ok {
+						slices = true
+					}
+				}
+			}
+		}
+		if !slices || fn.Signature.Results().Len() == 0 || !core.IsStringType(fn.Signature.Results().At(0).Type()) {
+			continue
+		}
+		// reads up to a delimiter: a loop that is left on equality with a rune
+		// constant and decides nothing by the class of the character
+		byClass, byDelimiter, seesCR := false, false, false
+		var walk func(f *ssa.Function, d int)
+		seen := map[*ssa.Function]bool{}
+		walk = func(f *ssa.Function, d int) {
+			if seen[f] || f.Blocks == nil {
+				return
+			}
+			seen[f] = true
+			for _, b := range f.Blocks {
+				for _, in := range b.Instrs {
+					switch x := in.(type) {
+					case *ssa.BinOp:
+						if x.Op != token.EQL && x.Op != token.NEQ {
+							continue
+						}
+						for _, o := range []ssa.Value{x.X, x.Y} {
+							if k, ok := o.(*ssa.Const); ok && k.Value != nil {
+								if bt, ok := k.Type().Underlying().(*types.Basic); ok && bt.Kind() == types.Int32 {
+									if f == fn && k.Int64() != 0 {
+										byDelimiter = true
+									}
+									if k.Int64() == 13 {
+										seesCR = true
+									}
+								}
+							}
+						}
+					case ssa.CallInstruction:
+						cal := x.Common().StaticCallee()
+						if cal == nil {
+							continue
+						}
+						if cal.Pkg != nil && cal.Pkg.Pkg.Path() == "unicode" {
+							byClass = true
+						}
+						if cal.Pkg != nil && cal.Pkg.Pkg.Path() == "strings" && strings.HasPrefix(cal.Name(), "Replace") {
+							for _, a := range x.Common().Args {
+								if k, ok := a.(*ssa.Const); ok && k.Value != nil && strings.Contains(k.Value.ExactString(), `\r`) {
+									seesCR = true
+								}
+							}
+						}
+						if core.RepoFunc(cal) && cal.Pkg == fn.Pkg && d < 1 {
+							if cal.Signature.Results().Len() == 1 {
+								if bt, ok := cal.Signature.Results().At(0).Type().Underlying().(*types.Basic); ok && bt.Kind() == types.Bool && cal.Signature.Params().Len() == 1 {
+									byClass = true // isLetter(ch), isDigit(ch) ...
+								}
+							}
+							walk(cal, d+1)
+						}
+					}
+				}
+			}
+		}
+		walk(fn, 0)
+		if byClass || !byDelimiter {
+			continue
+		}
+		n++
+		c.Check(seesCR, core.SSAName(fn)+"|drops-the-carriage-return", p.Pos(fn.Pos()),
+			fn.Name()+" copies source text up to a closing delimiter, across line ends"+ife(seesCR, ", and looks for carriage returns", ", and never looks for a carriage return: with CRLF line endings the text it returns has a \\r in it that the same source with LF line endings does not have"))
+	}
+	if n == 0 {
+		core.Undecidedf("no function of the lexer copies source text up to a delimiter")
+	}
+	c.Stat("delimited_copies", n)
+}
+
+// ---------------------------------------------------------------------------
+// signalRegistrationsAreUndone: os/signal.Notify changes what the process does
+// with a signal for as long as the channel stays registered - for SIGINT and
+// SIGTERM, that the process is no longer ended by them.  A library function
+// that registers a channel for the time of one evaluation takes it off again
+// when it returns (a deferred signal.Stop of the same channel): otherwise the
+// first evaluation that served HTTP leaves a host that SIGTERM cannot stop, and
+// every evaluation in the process lives with it.
+func signalRegistrationsAreUndone(c *core.Ctx) {
+	p := c.P
+	n := 0
+	for _, fn := range repoFns(p) {
+		if fn.Pkg == nil || strings.HasPrefix(core.RelPkg(fn.Pkg.Pkg), "cmd/") {
+			continue // a command owns its process
+		}
+		k := 0
+		for _, b := range fn.Blocks {
+			for _, in := range b.Instrs {
+				ci, ok := in.(ssa.CallInstruction)
+				if !ok {
+					continue
+				}
+				cal := ci.Common().StaticCallee()
+				if cal == nil || cal.Pkg == nil || cal.Pkg.Pkg.Path() != "os/signal" || cal.Name() != "Notify" || len(ci.Common().Args) == 0 {
+					continue
+				}
+				n++
+				k++
+				ch := ci.Common().Args[0]
+				undone := false
+				for _, b2 := range fn.Blocks {
+					for _, in2 := range b2.Instrs {
+						d, ok := in2.(*ssa.Defer)
+						if !ok {
+							continue
+						}
+						c2 := d.Call.StaticCallee()
+						if c2 != nil && c2.Pkg != nil && c2.Pkg.Pkg.Path() == "os/signal" && c2.Name() == "Stop" && len(d.Call.Args) == 1 {
+							for _, o := range core.Origins(d.Call.Args[0]) {
+								for _, o2 := range core.Origins(ch) {
+									if o == o2 {
+										undone = true
+									}
+								}
+							}
+						}
+					}
+				}
+				c.Check(undone, core.SSAName(fn)+"|signal.Notify|undone-when-the-function-returns|"+sprintf("%d", k), p.Pos(in.Pos()),
+					fn.Name()+" registers a channel for signals"+ife(undone, " and takes it off again with a deferred signal.Stop", " and never takes it off: after the evaluation the process still hands SIGINT and SIGTERM to a channel nobody reads, and can no longer be ended by them"))
+			}
+		}
+	}
+	if n == 0 {
+		c.Pass("repo|no-signal-registration", "", "no library function registers a channel for signals")
+	}
+	c.Stat("signal_registrations", n)
+}
+
+// ---------------------------------------------------------------------------
+// everySymbolHasASlotOfItsOwn: the index of a symbol is its place in the list
+// of the symbols of the function (or module) it belongs to: the table gives a
+// new symbol the length of that list, and appends it.  Closures hold cells that
+// point at slots, and a slot that is handed out again after its block has ended
+// (to save locals) makes a closure over the first variable read and write the
+// second.
+func everySymbolHasASlotOfItsOwn(c *core.Ctx) {
+	p := c.P
+	cp := p.Pkg("compiler")
+	symT := core.MustType(cp, "Symbol")
+	stT := core.MustType(cp, "SymbolTable")
+	iIdx := fieldIdxByName(symT, "index")
+	lIdx := fieldIdxByName(stT, "symbols")
+	if iIdx < 0 || lIdx < 0 {
+		core.Undecidedf("compiler.Symbol.index / SymbolTable.symbols not found")
+	}
+	n := 0
+	for _, fn := range repoFns(p, "compiler") {
+		for i, st := range storesToField(fn, symT, iIdx) {
+			// (the loader puts back the index that was stored)
+			if strings.HasSuffix(p.Fset.Position(fn.Pos()).Filename, "store.go") {
+				continue
+			}
+			n++
+			bad := ""
+			var walk func(v ssa.Value, seen map[ssa.Value]bool)
+			walk = func(v ssa.Value, seen map[ssa.Value]bool) {
+				if seen[v] {
+					return
+				}
+				seen[v] = true
+				switch x := v.(type) {
+				case *ssa.Convert:
+					walk(x.X, seen)
+				case *ssa.Phi:
+					for _, e := range x.Edges {
+						walk(e, seen)
+					}
+				case *ssa.Call:
+					if bi, ok := x.Call.Value.(*ssa.Builtin); ok && bi.Name() == "len" && len(x.Call.Args) == 1 {
+						if _, ok := loadOfField(x.Call.Args[0], stT, lIdx); ok {
+							return
+						}
+					}
+					bad = x.String()
+				default:
+					bad = v.String()
+				}
+			}
+			walk(st.Val, map[ssa.Value]bool{})
+			c.Check(bad == "", core.SSAName(fn)+"|Symbol.index|is-the-length-of-the-list|"+sprintf("%d", i+1), p.Pos(st.Pos()),
+				fn.Name()+" gives a symbol its index"+ife(bad == "", ": the length of the table's list of symbols, to which it is appended", ": on some path it is "+bad+" and not the length of the table's list of symbols: two symbols of one function can then share a slot, and a closure over the first reads and writes the second"))
+		}
+	}
+	if n == 0 {
+		core.Undecidedf("no function of the compiler gives a symbol its index")
+	}
+	c.Stat("symbol_index_stores", n)
+}
+
+// variadicVals: the values passed for a variadic parameter (the slice literal
+// that go/ssa builds for them), or the argument itself.
+func variadicVals(a ssa.Value) []ssa.Value {
+	sl, ok := a.(*ssa.Slice)
+	if !ok {
+		return []ssa.Value{a}
+	}
+	var vals []ssa.Value
+	if al, ok := sl.X.(*ssa.Alloc); ok && al.Referrers() != nil {
+		type iv struct {
+			i int64
+			v ssa.Value
+		}
+		var got []iv
+		for _, r := range *al.Referrers() {
+			if ia, ok := r.(*ssa.IndexAddr); ok && ia.Referrers() != nil {
+				idx := int64(0)
+				if k, ok := ia.Index.(*ssa.Const); ok {
+					idx = k.Int64()
+				}
+				for _, r2 := range *ia.Referrers() {
+					if s, ok := r2.(*ssa.Store); ok {
+						got = append(got, iv{idx, s.Val})
+					}
+				}
+			}
+		}
+		sort.Slice(got, func(i, j int) bool { return got[i].i < got[j].i })
+		for _, g := range got {
+			vals = append(vals, g.v)
+		}
+	}
+	return vals
+}
+
+// ---------------------------------------------------------------------------
+// handedDownCellsAreIndexedByTheEnclosingFunction: a function literal nested
+// two levels deep gets the cell of an outer variable from the closure it is
+// created in: the instruction names the variable by its place in THAT
+// closure's list of free variables, which the compiler finds by resolving the
+// name in the enclosing function's table.  The place in the new function's own
+// list is another number whenever the two functions captured their variables
+// in a different order, and the new closure then reads and writes a different
+// variable.
+func handedDownCellsAreIndexedByTheEnclosingFunction(c *core.Ctx) {
+	p := c.P
+	cp := p.Pkg("compiler")
+	stT := core.MustType(cp, "SymbolTable")
+	opP := p.Pkg("op")
+	mk := opP.Types.Scope().Lookup("MakeCell")
+	if mk == nil {
+		core.Undecidedf("op.MakeCell not found")
+	}
+	mkVal := mk.(*types.Const).Val().ExactString()
+	n := 0
+	for _, fn := range repoFns(p, "compiler") {
+		k := 0
+		for _, b := range fn.Blocks {
+			for _, in := range b.Instrs {
+				ci, ok := in.(ssa.CallInstruction)
+				if !ok {
+					continue
+				}
+				cal := ci.Common().StaticCallee()
+				if cal == nil || cal.Name() != "emit" || len(ci.Common().Args) < 3 {
+					continue
+				}
+				kc, ok := ci.Common().Args[1].(*ssa.Const)
+				if !ok || kc.Value == nil || kc.Value.ExactString() != mkVal || core.NamedOf(kc.Type()) == nil || core.NamedOf(kc.Type()).Obj().Pkg() != opP.Types {
+					continue
+				}
+				ops := variadicVals(ci.Common().Args[2])
+				if len(ops) != 2 {
+					continue
+				}
+				mode, ok := ops[1].(*ssa.Const)
+				if !ok || mode.Int64() != 1 {
+					continue // a local of the function itself
+				}
+				n++
+				k++
+				from := func(name string) bool {
+					return core.DependsOn(ops[0], func(w ssa.Value) bool {
+						call, ok := w.(*ssa.Call)
+						if !ok {
+							return false
+						}
+						c2 := call.Call.StaticCallee()
+						return c2 != nil && c2.Signature.Recv() != nil && core.NamedOf(c2.Signature.Recv().Type()) == stT && c2.Name() == name
+					})
+				}
+				isCallOf := func(w ssa.Value, name string) bool {
+					call, ok := w.(*ssa.Call)
+					if !ok {
+						return false
+					}
+					c2 := call.Call.StaticCallee()
+					return c2 != nil && c2.Signature.Recv() != nil && core.NamedOf(c2.Signature.Recv().Type()) == stT && c2.Name() == name
+				}
+				// (what Resolve was asked for comes from the new function's list; what it found does not)
+				freeDirect := core.DependsOnAvoiding(ops[0], func(w ssa.Value) bool { return isCallOf(w, "Free") }, func(w ssa.Value) bool { return isCallOf(w, "Resolve") })
+				okb := from("Resolve") && !freeDirect
+				c.Check(okb, core.SSAName(fn)+"|MakeCell|handed-down-cell-indexed-by-the-enclosing-function|"+sprintf("%d", k), p.Pos(in.Pos()),
+					fn.Name()+" hands the cell of an outer variable down to a nested function literal"+ife(okb, ", naming it by what resolving the variable in the enclosing function found", ", naming it by its place in the new function's own list of free variables and not by what resolving it in the enclosing function finds: where the two lists differ the new closure gets the cell of another variable"))
+			}
+		}
+	}
+	if n == 0 {
+		core.Undecidedf("no compile function hands a cell down")
+	}
+	c.Stat("handed_down_cells", n)
+}
+
+// ---------------------------------------------------------------------------
+// levelsAddedInALoopStayCounted: the parser bounds the depth of the tree it
+// builds with a counter.  Where it makes the tree deeper once per round of a
+// loop (the operators of a chain a()()().., 1+1+1.., each applied to the
+// expression so far), the count goes up once per round and is not taken off
+// again inside the loop: the loop does not recurse, so nothing else bounds the
+// chain, and the compiler and the printer recurse over a tree as deep as the
+// chain is long (a fatal stack overflow for a 16 MB source).
+func levelsAddedInALoopStayCounted(c *core.Ctx) {
+	p := c.P
+	pp := p.Pkg("parser")
+	parserT := core.MustType(pp, "Parser")
+	dIdx := fieldIdxByName(parserT, "depth")
+	enterM := core.Method(parserT, "enter")
+	if dIdx < 0 || enterM == nil {
+		core.Undecidedf("parser.Parser.depth / enter not found")
+	}
+	enter := p.SSAFunc(enterM)
+	n := 0
+	for _, fn := range repoFns(p, "parser") {
+		if fn == enter {
+			continue
+		}
+		k := 0
+		for _, b := range fn.Blocks {
+			for _, in := range b.Instrs {
+				ci, ok := in.(ssa.CallInstruction)
+				if !ok || ci.Common().StaticCallee() != enter || !inLoop(b) {
+					continue
+				}
+				n++
+				k++
+				bad := ""
+				for _, st := range storesToField(fn, parserT, dIdx) {
+					// in the same loop: the store and the call reach each other
+					if instrReaches(in, st) && instrReaches(st, in) {
+						bad = p.Pos(st.Pos())
+					}
+				}
+				c.Check(bad == "", core.SSAName(fn)+"|enter|stays-counted-in-the-loop|"+sprintf("%d", k), p.Pos(in.Pos()),
+					fn.Name()+" counts a level once per round of a loop"+ife(bad == "", " and leaves it counted until the function returns", " and takes it off again inside the loop (at "+bad+"): a chain of operators of any length then parses into a tree that deep, over which the printer and the compiler recurse until the native stack is exhausted"))
+			}
+		}
+	}
+	if n == 0 {
+		core.Undecidedf("no parse function counts a level inside a loop")
+	}
+	c.Stat("levels_counted_in_loops", n)
+}
+
+// ---------------------------------------------------------------------------
+// parseResultsAreNotAssertedBlind: a single-valued type assertion panics on a
+// nil interface.  The parser asserts the result of one of its own parse
+// functions that way only when that function has no path on which it returns
+// nil: a function that learns to refuse something (and returns nil with the
+// error set) otherwise turns the refusal into a Go panic in the caller, which
+// nothing in parser.Parse recovers.
+func parseResultsAreNotAssertedBlind(c *core.Ctx) {
+	p := c.P
+	pp := p.Pkg("parser")
+	parserT := core.MustType(pp, "Parser")
+	returnsNil := func(f *ssa.Function) string {
+		if f == nil || f.Blocks == nil {
+			return ""
+		}
+		for _, b := range f.Blocks {
+			for _, in := range b.Instrs {
+				ret, ok := in.(*ssa.Return)
+				if !ok || len(ret.Results) != 1 {
+					continue
+				}
+				// (a return behind "the token's literal is empty" is not a path
+				// of its own: the lexer gives no token of a kind that the caller
+				// has tested for an empty literal)
+				emptyLiteral := false
+				for _, b2 := range f.Blocks {
+					if len(b2.Instrs) == 0 || b2 == b || !b2.Dominates(b) {
+						continue
+					}
+					if iff, ok := b2.Instrs[len(b2.Instrs)-1].(*ssa.If); ok && iff.Block().Succs[0] == b {
+						if bo, ok := iff.Cond.(*ssa.BinOp); ok && bo.Op == token.EQL {
+							for _, pair := range [][2]ssa.Value{{bo.X, bo.Y}, {bo.Y, bo.X}} {
+								k, isK := pair[1].(*ssa.Const)
+								u, isU := pair[0].(*ssa.UnOp)
+								if isK && isU && k.Value != nil && k.Value.ExactString() == `""` {
+									if fa, ok := u.X.(*ssa.FieldAddr); ok {
+										if nt := core.NamedOf(fa.X.Type()); nt != nil && fieldNameOf(nt, fa.Field) == "Literal" {
+											emptyLiteral = true
+										}
+									}
+								}
+							}
+						}
+					}
+				}
+				if emptyLiteral {
+					continue
+				}
+				for _, o := range core.Origins(spilledResult(b, ret.Results[0])) {
+					if k, ok := o.(*ssa.Const); ok && k.IsNil() {
+						return p.Pos(ret.Pos())
+					}
+				}
+			}
+		}
+		return ""
+	}
+	n := 0
+	for _, fn := range repoFns(p, "parser") {
+		k := 0
+		for _, b := range fn.Blocks {
+			for _, in := range b.Instrs {
+				ta, ok := in.(*ssa.TypeAssert)
+				if !ok || ta.CommaOk {
+					continue
+				}
+				for _, o := range core.Origins(ta.X) {
+					call, ok := o.(*ssa.Call)
+					if !ok {
+						continue
+					}
+					cal := call.Call.StaticCallee()
+					if cal == nil || cal.Signature.Recv() == nil || core.NamedOf(cal.Signature.Recv().Type()) != parserT {
+						continue
+					}
+					n++
+					k++
+					where := returnsNil(cal)
+					// tested for nil before the assertion?
+					tested := false
+					if where != "" {
+						for _, b2 := range fn.Blocks {
+							if len(b2.Instrs) == 0 || !b2.Dominates(b) || b2 == b {
+								continue
+							}
+							if iff, ok := b2.Instrs[len(b2.Instrs)-1].(*ssa.If); ok {
+								if bo, ok := iff.Cond.(*ssa.BinOp); ok && (bo.X == ssa.Value(call) || bo.Y == ssa.Value(call)) {
+									tested = true
+								}
+							}
+						}
+					}
+					okb := where == "" || tested
+					c.Check(okb, core.SSAName(fn)+"|"+cal.Name()+"|asserted-only-when-never-nil|"+sprintf("%d", k), p.Pos(ta.Pos()),
+						fn.Name()+" asserts the type of what "+cal.Name()+" returned without a second result"+ife(okb, ife(where == "", "; "+cal.Name()+" has no path on which it returns nil", "; the result is tested for nil first"), "; "+cal.Name()+" returns nil at "+where+": the assertion then panics in "+fn.Name()+", and parser.Parse hands the panic to its caller"))
+				}
+			}
+		}
+	}
+	if n == 0 {
+		c.Pass("parser|no-blind-assertion-of-a-parse-result", "", "no single-valued type assertion of the result of a parse function")
+	}
+	c.Stat("asserted_parse_results", n)
+}
+
+// ---------------------------------------------------------------------------
+// callbackLoopsAreBoundedByWhatWasThere: a method of a container that calls a
+// callback once per item walks the items that were there when it started (a
+// range over the slice, whose length Go reads once).  A loop that reads the
+// length again every round can be kept going by its own callback
+// (l.each(l.append)); when the callback is a builtin nothing in the loop is an
+// instruction of the VM, so the halt flag is never looked at - such a loop
+// asks the context itself, or the evaluation cannot be stopped.
+func callbackLoopsAreBoundedByWhatWasThere(c *core.Ctx) {
+	p := c.P
+	n := 0
+	for _, fn := range repoFns(p, "object") {
+		if fn.Signature.Recv() == nil || len(fn.Params) == 0 {
+			continue
+		}
+		recv := ssa.Value(fn.Params[0])
+		// calls a callback inside a loop
+		var calls []ssa.Instruction
+		for _, b := range fn.Blocks {
+			if !inLoop(b) {
+				continue
+			}
+			for _, in := range b.Instrs {
+				ci, ok := in.(ssa.CallInstruction)
+				if !ok {
+					continue
+				}
+				cm := ci.Common()
+				if cm.IsInvoke() && cm.Method.Name() == "Call" {
+					calls = append(calls, in)
+				} else if cm.StaticCallee() == nil && !cm.IsInvoke() {
+					if _, isB := cm.Value.(*ssa.Builtin); !isB {
+						if sig, ok := cm.Value.Type().Underlying().(*types.Signature); ok && sig.Params().Len() >= 2 && core.IsNamed(sig.Params().At(0).Type(), "context", "Context") {
+							calls = append(calls, in)
+						}
+					}
+				}
+			}
+		}
+		if len(calls) == 0 {
+			continue
+		}
+		n++
+		reread, polled := "", false
+		for _, b := range fn.Blocks {
+			if !inLoop(b) {
+				continue
+			}
+			for _, in := range b.Instrs {
+				if call, ok := in.(*ssa.Call); ok {
+					if bi, ok := call.Call.Value.(*ssa.Builtin); ok && bi.Name() == "len" && len(call.Call.Args) == 1 {
+						if u, ok := call.Call.Args[0].(*ssa.UnOp); ok && u.Op == token.MUL {
+							if fa, ok := u.X.(*ssa.FieldAddr); ok && fa.X == recv {
+								for _, cl := range calls {
+									if instrReaches(cl, in) && instrReaches(in, cl) {
+										reread = p.Pos(call.Pos())
+									}
+								}
+							}
+						}
+					}
+					if call.Call.IsInvoke() && (call.Call.Method.Name() == "Err" || call.Call.Method.Name() == "Done") {
+						polled = true
+					}
+				}
+			}
+		}
+		okb := reread == "" || polled
+		c.Check(okb, core.SSAName(fn)+"|callback-loop-bounded-by-what-was-there", p.Pos(fn.Pos()),
+			core.SSAName(fn)+" calls a callback once per round of a loop"+ife(reread == "", " over the items that were there when it started", ife(polled, " whose bound it reads again every round, and asks the context in the loop", " whose bound it reads again every round (at "+reread+") without asking the context: a callback that lengthens the container keeps the loop going, and with a builtin for a callback no instruction of the VM runs that would notice the end of the evaluation (l.each(l.append))")))
+	}
+	if n < 3 {
+		core.Undecidedf("only %d container methods call a callback in a loop", n)
+	}
+	c.Stat("callback_loops", n)
+}
+
+// ---------------------------------------------------------------------------
+// callbacksThatRunElsewhereRunOnAClone: a builtin that keeps a script function
+// to call it later from another goroutine (the handler of an HTTP server, a
+// goroutine it starts) takes the clone-call function from the context, which
+// runs every call on a VM of its own.  The plain call function runs on the VM
+// of the evaluation: two requests in flight then share its frames, its operand
+// stack and its instruction pointer.
+func callbacksThatRunElsewhereRunOnAClone(c *core.Ctx) {
+	p := c.P
+	n := 0
+	for _, fn := range repoFns(p) {
+		if fn.Parent() != nil || fn.Pkg == nil {
+			continue
+		}
+		rel := core.RelPkg(fn.Pkg.Pkg)
+		if !strings.HasPrefix(rel, "modules/") && rel != "builtins" && rel != "object" {
+			continue
+		}
+		for _, b := range fn.Blocks {
+			for _, in := range b.Instrs {
+				call, ok := in.(*ssa.Call)
+				if !ok {
+					continue
+				}
+				cal := call.Call.StaticCallee()
+				if cal == nil || cal.Pkg == nil || core.RelPkg(cal.Pkg.Pkg) != "object" || cal.Name() != "GetCallFunc" {
+					continue
+				}
+				// where what was obtained goes
+				var elsewhere string
+				fromCall := func(v ssa.Value) bool {
+					return core.DependsOn(v, func(w ssa.Value) bool { return w == ssa.Value(call) })
+				}
+				for _, b2 := range fn.Blocks {
+					for _, in2 := range b2.Instrs {
+						switch x := in2.(type) {
+						case *ssa.Go:
+							for _, a := range x.Call.Args {
+								if fromCall(a) {
+									elsewhere = "a goroutine (" + p.Pos(x.Pos()) + ")"
+								}
+							}
+							if fromCall(x.Call.Value) {
+								elsewhere = "a goroutine (" + p.Pos(x.Pos()) + ")"
+							}
+						case *ssa.Call:
+							if c2 := x.Call.StaticCallee(); c2 != nil && c2.Pkg != nil && c2.Pkg.Pkg.Path() == "net/http" {
+								for _, a := range x.Call.Args {
+									if fromCall(a) {
+										elsewhere = "net/http." + c2.Name() + " (" + p.Pos(x.Pos()) + ")"
+									}
+								}
+							}
+						}
+					}
+				}
+				n++
+				c.Check(elsewhere == "", core.SSAName(fn)+"|GetCallFunc|not-handed-to-another-goroutine", p.Pos(call.Pos()),
+					fn.Name()+" takes the call function of the evaluation's VM"+ife(elsewhere == "", " and calls it on the goroutine of the evaluation", " and hands a closure over it to "+elsewhere+": the script function then runs on the evaluation's VM from another goroutine, and two calls in flight share its frames and its operand stack (the clone-call function is for this)"))
+			}
+		}
+	}
+	if n < 5 {
+		core.Undecidedf("only %d uses of the call function found", n)
+	}
+	c.Stat("call_function_uses", n)
+}
+
+// ---------------------------------------------------------------------------
+// atomicFieldsAreAlwaysAccessedAtomically: a field that some function reads or
+// writes through sync/atomic (the address of the field is handed to
+// atomic.Load.., Store.., Add.., CompareAndSwap..) is shared between
+// goroutines; every other access goes through sync/atomic as well.  A plain
+// read in the dispatch loop next to an atomic store in the context watcher is
+// a data race.
+func atomicFieldsAreAlwaysAccessedAtomically(c *core.Ctx) {
+	p := c.P
+	type fk struct {
+		nt  *types.Named
+		idx int
+	}
+	atomicFields := map[fk]bool{}
+	isAtomicUse := func(fa *ssa.FieldAddr) bool {
+		if fa.Referrers() == nil {
+			return false
+		}
+		for _, r := range *fa.Referrers() {
+			if ci, ok := r.(ssa.CallInstruction); ok {
+				if cal := ci.Common().StaticCallee(); cal != nil && cal.Pkg != nil && cal.Pkg.Pkg.Path() == "sync/atomic" {
+					return true
+				}
+			}
+		}
+		return false
+	}
+	fns := repoFns(p)
+	for _, fn := range fns {
+		for _, b := range fn.Blocks {
+			for _, in := range b.Instrs {
+				if fa, ok := in.(*ssa.FieldAddr); ok && isAtomicUse(fa) {
+					if nt := core.NamedOf(fa.X.Type()); nt != nil && core.InRepo(nt.Obj().Pkg()) {
+						atomicFields[fk{nt, fa.Field}] = true
+					}
+				}
+			}
+		}
+	}
+	if len(atomicFields) == 0 {
+		core.Undecidedf("no field of a repository type is accessed through sync/atomic")
+	}
+	n := 0
+	for _, fn := range fns {
+		perField := map[fk]string{}
+		seen := map[fk]bool{}
+		for _, b := range fn.Blocks {
+			for _, in := range b.Instrs {
+				fa, ok := in.(*ssa.FieldAddr)
+				if !ok {
+					continue
+				}
+				nt := core.NamedOf(fa.X.Type())
+				key := fk{nt, fa.Field}
+				if nt == nil || !atomicFields[key] {
+					continue
+				}
+				seen[key] = true
+				if isAtomicUse(fa) || fa.Referrers() == nil {
+					continue
+				}
+				for _, r := range *fa.Referrers() {
+					switch x := r.(type) {
+					case *ssa.UnOp:
+						if x.Op == token.MUL {
+							perField[key] = "read at " + p.Pos(x.Pos())
+						}
+					case *ssa.Store:
+						if x.Addr == ssa.Value(fa) {
+							// (a store into an object that no other goroutine has yet: the field of a fresh allocation)
+							if al, ok := fa.X.(*ssa.Alloc); ok && al.Heap {
+								continue
+							}
+							perField[key] = "written at " + p.Pos(x.Pos())
+						}
+					}
+				}
+			}
+		}
+		var keys []fk
+		for k := range seen {
+			keys = append(keys, k)
+		}
+		sort.Slice(keys, func(i, j int) bool {
+			if keys[i].nt.Obj().Name() != keys[j].nt.Obj().Name() {
+				return keys[i].nt.Obj().Name() < keys[j].nt.Obj().Name()
+			}
+			return keys[i].idx < keys[j].idx
+		})
+		for _, k := range keys {
+			n++
+			bad := perField[k]
+			c.Check(bad == "", core.SSAName(fn)+"|"+k.nt.Obj().Name()+"."+fieldNameOf(k.nt, k.idx)+"|accessed-through-sync/atomic", p.Pos(fn.Pos()),
+				fn.Name()+" accesses "+k.nt.Obj().Name()+"."+fieldNameOf(k.nt, k.idx)+", which other code accesses through sync/atomic,"+ife(bad == "", " through sync/atomic as well", " plainly ("+bad+"): a data race with the goroutines that store it atomically"))
+		}
+	}
+	c.Stat("atomic_field_accessors", n)
+}
+
+// ---------------------------------------------------------------------------
+// aCaseReturnsTheErrorOfTheContextItWaitedFor: an operation that waits in a
+// select for its value and for the end of a context reports, in the case of
+// the context, the error of that context.  A case that waits for another
+// channel (the Done channel of the evaluation that made the object, kept in a
+// field) and returns the caller's ctx.Err() returns nil when only the other
+// context is over: a send then completes without an error and without
+// delivering its value, and a range loop ends before the channel is closed.
+func aCaseReturnsTheErrorOfTheContextItWaitedFor(c *core.Ctx) {
+	p := c.P
+	n := 0
+	doneOf := func(v ssa.Value) (ssa.Value, bool) {
+		for _, o := range core.Origins(v) {
+			call, ok := o.(*ssa.Call)
+			if ok && call.Call.IsInvoke() && call.Call.Method.Name() == "Done" {
+				return call.Call.Value, true
+			}
+		}
+		return nil, false
+	}
+	for _, fn := range repoFns(p, "object") {
+		k := 0
+		for _, b := range fn.Blocks {
+			for _, in := range b.Instrs {
+				sel, ok := in.(*ssa.Select)
+				if !ok || sel.Referrers() == nil {
+					continue
+				}
+				// the index of the case that was taken
+				var idx ssa.Value
+				for _, r := range *sel.Referrers() {
+					if ex, ok := r.(*ssa.Extract); ok && ex.Index == 0 {
+						idx = ex
+					}
+				}
+				if idx == nil || idx.Referrers() == nil {
+					continue
+				}
+				caseBlock := map[int64]*ssa.BasicBlock{}
+				for _, r := range *idx.Referrers() {
+					bo, ok := r.(*ssa.BinOp)
+					if !ok || bo.Op != token.EQL || bo.Referrers() == nil {
+						continue
+					}
+					k, ok := bo.Y.(*ssa.Const)
+					if !ok {
+						continue
+					}
+					for _, r2 := range *bo.Referrers() {
+						if iff, ok := r2.(*ssa.If); ok {
+							caseBlock[k.Int64()] = iff.Block().Succs[0]
+						}
+					}
+				}
+				for i, st := range sel.States {
+					if st.Dir != types.RecvOnly {
+						continue
+					}
+					cb := caseBlock[int64(i)]
+					if cb == nil {
+						continue
+					}
+					waited, isDone := doneOf(st.Chan)
+					// the context errors that the case returns
+					for _, b2 := range fn.Blocks {
+						if b2 != cb && !cb.Dominates(b2) {
+							continue
+						}
+						for _, in2 := range b2.Instrs {
+							ret, ok := in2.(*ssa.Return)
+							if !ok {
+								continue
+							}
+							for _, res := range ret.Results {
+								for _, o := range core.Origins(spilledResult(b2, res)) {
+									call, ok := o.(*ssa.Call)
+									if !ok || !call.Call.IsInvoke() || call.Call.Method.Name() != "Err" || !core.IsNamed(call.Call.Value.Type(), "context", "Context") {
+										continue
+									}
+									n++
+									k++
+									same := isDone && (call.Call.Value == waited || core.SameStorage(call.Call.Value, waited))
+									c.Check(same, core.SSAName(fn)+"|select|case-returns-the-error-of-its-own-context|"+sprintf("%d", k), p.Pos(ret.Pos()),
+										fn.Name()+" returns a context's Err() from a case of a select"+ife(same, " that waited for the Done channel of that context", " that did not wait for the Done channel of that context: when the channel it did wait for is ready and the context is not over, the error is nil and the operation looks completed (a send that delivered nothing)"))
+								}
+							}
+						}
+					}
+				}
+			}
+		}
+	}
+	if n == 0 {
+		core.Undecidedf("no select case in package object returns a context's error")
+	}
+	c.Stat("context_cases", n)
+}
+
+// ---------------------------------------------------------------------------
+// aCloneGetsEachTableFromTheSameTable: Clone gives the new VM tables of its own
+// (modules, loaded code, globals given by the host) and fills each from the
+// table of the same name of the VM it clones.  A table filled from somewhere
+// else (the modules from the globals: the host's modules only) leaves out what
+// the script has put there since: a thread that imports a module its spawner
+// has imported runs the module's top-level code again, over the globals it
+// shares with the spawner.
+func aCloneGetsEachTableFromTheSameTable(c *core.Ctx) {
+	p := c.P
+	vmT := vmType(p)
+	var clones []*ssa.Function
+	for _, fn := range repoFns(p, "vm") {
+		if fn.Name() == "Clone" && fn.Signature.Recv() != nil && core.NamedOf(fn.Signature.Recv().Type()) == vmT && fn.Parent() == nil {
+			clones = append(clones, fn)
+			for _, b := range fn.Blocks {
+				for _, in := range b.Instrs {
+					if ci, ok := in.(ssa.CallInstruction); ok {
+						if cal := ci.Common().StaticCallee(); cal != nil && cal.Blocks != nil && cal.Signature.Recv() != nil && core.NamedOf(cal.Signature.Recv().Type()) == vmT {
+							clones = append(clones, cal)
+						}
+					}
+				}
+			}
+		}
+	}
+	if len(clones) == 0 {
+		core.Undecidedf("VirtualMachine.Clone not found")
+	}
+	n := 0
+	for _, fn := range clones {
+		recv := ssa.Value(fn.Params[0])
+		for _, b := range fn.Blocks {
+			for _, in := range b.Instrs {
+				mu, ok := in.(*ssa.MapUpdate)
+				if !ok {
+					continue
+				}
+				// the field of the new VM that the map ends up in
+				target := -1
+				for _, o := range core.Origins(mu.Map) {
+					if o.Referrers() == nil {
+						continue
+					}
+					for _, r := range *o.Referrers() {
+						if st, ok := r.(*ssa.Store); ok && st.Val == o {
+							if fa, ok := st.Addr.(*ssa.FieldAddr); ok && core.NamedOf(fa.X.Type()) == vmT && fa.X != recv {
+								target = fa.Field
+							}
+						}
+					}
+				}
+				if target < 0 {
+					continue
+				}
+				// the table that the entries come from: the range whose Next feeds the update
+				source := -2
+				core.DependsOn(mu.Value, func(w ssa.Value) bool {
+					nx, ok := w.(*ssa.Next)
+					if !ok {
+						return false
+					}
+					if rg, ok := nx.Iter.(*ssa.Range); ok {
+						if fa, ok := loadOfField(rg.X, vmT, -1); ok {
+							_ = fa
+						}
+						if u, ok := rg.X.(*ssa.UnOp); ok {
+							if fa, ok := u.X.(*ssa.FieldAddr); ok && core.NamedOf(fa.X.Type()) == vmT && fa.X == recv {
+								source = fa.Field
+							}
+						}
+					}
+					return false
+				})
+				if source == -2 {
+					continue
+				}
+				n++
+				c.Check(source == target, core.SSAName(fn)+"|"+fieldNameOf(vmT, target)+"|filled-from-the-same-table", p.Pos(mu.Pos()),
+					fn.Name()+" fills the "+fieldNameOf(vmT, target)+" of the new VM"+ife(source == target, " from the "+fieldNameOf(vmT, target)+" of the VM it clones", " from the "+fieldNameOf(vmT, source)+" of the VM it clones: what is in its "+fieldNameOf(vmT, target)+" and not there (the modules that the script has imported) is missing in the clone"))
+			}
+		}
+	}
+	if n == 0 {
+		core.Undecidedf("Clone fills no table of the new VM from a table of the VM it clones")
+	}
+	c.Stat("cloned_tables", n)
+}
